@@ -14,6 +14,7 @@ import copy
 import difflib
 import logging
 import os
+import uuid
 import typing
 
 import pydantic.typing
@@ -633,8 +634,7 @@ class FlowIRExperimentConfiguration:
 
         if create_instance_files and (exists_manifest is False or update_instance_files is True):
             try:
-                with open(manifest_file, 'w') as f:
-                    experiment.model.frontends.flowir.yaml_dump(self.manifestData, f)
+                self._atomic_yaml_dump(manifest_file, self.manifestData)
             except Exception as e:
                 out_errors.append(e)
 
@@ -679,14 +679,29 @@ class FlowIRExperimentConfiguration:
         This is version of FlowIR without any component replication
         """
         instance_file = os.path.join(self._conf_dir, 'flowir_instance.yaml')
-        with open(instance_file, 'w') as f:
-            primitive = self._unreplicated.instance(ignore_errors=True, inject_missing_fields=False,
-                                                    fill_in_all=False, is_primitive=True)
-            # primitive = experiment.model.frontends.flowir.FlowIR.compress_flowir(primitive)
-            pretty_primitive = experiment.model.frontends.flowir.FlowIR.pretty_flowir_sort(primitive)
-            experiment.model.frontends.flowir.yaml_dump(
-                pretty_primitive, f, sort_keys=False, default_flow_style=False
-            )
+        primitive = self._unreplicated.instance(ignore_errors=True, inject_missing_fields=False,
+                                                fill_in_all=False, is_primitive=True)
+        # primitive = experiment.model.frontends.flowir.FlowIR.compress_flowir(primitive)
+        pretty_primitive = experiment.model.frontends.flowir.FlowIR.pretty_flowir_sort(primitive)
+        self._atomic_yaml_dump(instance_file, pretty_primitive, sort_keys=False, default_flow_style=False)
+
+    @classmethod
+    def _atomic_yaml_dump(cls, path, data, **kwargs):
+        """Writes @data as YAML to a temporary file next to @path and then replaces @path with it.
+
+        A crash or an I/O error while writing leaves the previous version of @path untouched.
+        """
+        temp_path = os.path.join(os.path.dirname(path), '.%s.%s' % (os.path.basename(path), uuid.uuid4()))
+        try:
+            with open(temp_path, 'w') as f:
+                experiment.model.frontends.flowir.yaml_dump(data, f, **kwargs)
+            os.replace(temp_path, path)
+        except BaseException:
+            try:
+                os.remove(temp_path)
+            except OSError:
+                pass
+            raise
 
     @property
     def configurationDirectory(self):
